@@ -24,7 +24,10 @@ QUALS = {'NameBinding': 'python_minifier.rename.binding.NameBinding', 'BuiltinBi
 
 def scenarios():
     for prefix_globals, profitable, orig_free, self_reserved, kind in itertools.product((True, False), (True, False), (True, False), (True, False), ('NameBinding', 'BuiltinBinding', 'HoistedBinding')):
-        yield dict(prefix_globals=prefix_globals, profitable=profitable, orig_free=orig_free, self_reserved=self_reserved, kind=kind)
+        for shape in ('long original name, short candidates', 'short original name, longer candidates', 'module defines __all__'):
+            if shape != 'long original name, short candidates' and not (kind == 'NameBinding' and not self_reserved):
+                continue
+            yield dict(prefix_globals=prefix_globals, profitable=profitable, orig_free=orig_free, self_reserved=self_reserved, kind=kind, shape=shape)
 
 
 def run(model, sc):
@@ -33,8 +36,12 @@ def run(model, sc):
     module = Obj('Module', body=[], assigned_names=set())
     func = Obj('FunctionDef', name='f', assigned_names=set())
 
+    short = sc.get('shape') == 'short original name, longer candidates'
+    stem = 'o' if short else 'orig_'
+    cands = ['aa', 'bb', 'cc'] if short else ['a', 'b', 'c']
+
     def binding(tag):
-        o = Obj(sc['kind'], name='orig_' + tag, _name='orig_' + tag, allow_rename=True, reserved=('orig_' + tag) if sc['self_reserved'] else None, tag=tag)
+        o = Obj(sc['kind'], name=stem + tag, _name=stem + tag, allow_rename=True, reserved=(stem + tag) if sc['self_reserved'] else None, tag=tag)
         o.qual = QUALS[sc['kind']]
         return o
     bm, bf = binding('m'), binding('f')
@@ -73,16 +80,18 @@ def run(model, sc):
     def h_avail(I, e, args, kw, env):
         name = args[0]
         b = current[0]
-        if isinstance(name, str) and name.startswith('orig_'):
+        if isinstance(name, str) and name in (stem + 'm', stem + 'f'):
             return sc['orig_free']
         if b is not None:
             obs[id(b)]['tested'].append(name)
         # the first candidate is taken, the second is free: the loop has to advance
-        return isinstance(name, str) and name.lstrip('_') != 'a'
+        return isinstance(name, str) and name.lstrip('_') != cands[0]
     hooks = {'sorted_bindings': h_sorted, 'all_bindings': lambda I, e, args, kw, env: [], 'add_assigned': lambda I, e, args, kw, env: None,
              'reservation_scope': h_scope, 'reserve_name': lambda I, e, args, kw, env: None,
              '.should_rename': h_should, '.rename': h_rename, '.disallow_rename': h_pin,
-             'self.is_available': h_avail, 'self.iter_names': lambda I, e, args, kw, env: ['a', 'b', 'c']}
+             'self.is_available': h_avail, 'self.iter_names': lambda I, e, args, kw, env: list(cands),
+             'name_filter': lambda I, e, args, kw, env: iter(()),
+             'find__all__': lambda I, e, args, kw, env: (['exported'] if sc.get('shape') == 'module defines __all__' else [])}
     # a helper named should_rename on the assigner itself (method or nested function) must run for real: the attribute hook above would
     # shadow `self.should_rename(...)`, so it is answered only for the binding objects and otherwise falls through
     I = Interp(model, MOD, hooks)
@@ -94,11 +103,10 @@ def run(model, sc):
             return orig_attr_hook(I_, e, args, kw, env)
         return NotImplemented
     hooks['.should_rename'] = h_should_any
-    me = Obj('NameAssigner', names=[], name_generator=iter(()))
-    me.qual = NA
-    res = I.explore(lambda: I.call_method(NA, '__call__', me, [module, sc['prefix_globals']]))
+    # entered through rename(module, prefix_globals=..., preserved_globals=...), the function minify() calls
+    res = I.explore(lambda: I.call_function(MOD + '.rename', [module], {'prefix_globals': sc['prefix_globals'], 'preserved_globals': []}))
     if len(res) != 1 or res[0][0][0] != 'return':
-        raise AnalysisError('UNDECIDED: NameAssigner.__call__ under %s -> %s' % (sc, [(r[0], r[2][:2]) for r in res][:3]))
+        raise AnalysisError('UNDECIDED: rename() under %s -> %s' % (sc, [(r[0], r[2][:2]) for r in res][:3]))
     return [obs[id(bm)], obs[id(bf)]]
 
 
@@ -117,3 +125,85 @@ def expect_rename(sc):
     if sc['self_reserved']:
         return False
     return not sc['orig_free']
+
+
+# ---------------------------------------------------------------------- reservations: the loop run with the real reservation code
+def reservation_world(model, preserved_globals=('PRESERVED',)):
+    """rename(module, ...) evaluated on a module namespace with two function namespaces. Only the order of bindings, their reservation scopes
+    and the candidate stream are supplied by the checker; reserve_name, is_available, available_name and the loop itself are the repository's.
+    The candidate stream begins with the names that must stay free (a pinned name, a preserved global, the original name of a binding that is
+    not renamed) - if any of them is handed out, or two bindings whose scopes overlap end up with one name, the reservation discipline is broken.
+    -> list of problems"""
+    def ns(kind, name):
+        o = Obj(kind, name=name, body=[])
+        o.attrs['assigned_names'] = set()
+        return o
+    module, f, g = ns('Module', 'm'), ns('FunctionDef', 'f'), ns('FunctionDef', 'g')
+
+    def binding(name, allow, reserved=None, kind='NameBinding'):
+        o = Obj(kind, name=name, _name=name, allow_rename=allow, _allow_rename=allow, reserved=reserved, _reserved=reserved)
+        o.qual = QUALS[kind]
+        return o
+    pinned = binding('pinned_name', False, reserved='pinned_name')
+    kept = binding('kept', True)           # renamable, but the cost model says no: keeps its name, which must then be reserved
+    b1, b2, b3 = binding('first', True), binding('second', True), binding('third', True)
+    gb = binding('glob', True)
+    # processing order: the pinned binding, a global (tempted by the preserved names), in g a binding that keeps its name and then one that is
+    # tempted by that name, in f two bindings that must not share a name
+    order = [(module, pinned), (module, gb), (g, kept), (g, b3), (f, b1), (f, b2)]
+    scopes = {id(pinned): [module, f, g], id(gb): [module, f], id(kept): [g], id(b3): [g], id(b1): [f], id(b2): [f]}
+    renamed = {}
+    stream = ['pinned_name'] + list(preserved_globals) + ['n0', 'kept', 'n1', 'n2', 'n3', 'n4', 'n5', 'n6', 'n7', 'n8']
+
+    def h_rename(I, e, args, kw, env):
+        b = I.last_recv
+        if isinstance(b, Obj) and id(b) in scopes:
+            renamed[id(b)] = args[0]
+            b.attrs['name'] = b.attrs['_name'] = args[0]
+            return None
+        return TOP
+
+    def h_pin(I, e, args, kw, env):
+        b = I.last_recv
+        if isinstance(b, Obj) and id(b) in scopes:
+            b.attrs['allow_rename'] = b.attrs['_allow_rename'] = False
+            b.attrs['reserved'] = b.attrs['_reserved'] = b.attrs['name']
+            return None
+        return TOP
+
+    def h_should(I, e, args, kw, env):
+        b = I.last_recv
+        if isinstance(b, Obj) and id(b) in scopes:
+            return b is not kept
+        return NotImplemented
+    hooks = {'sorted_bindings': lambda I, e, a, kw, env: list(order), 'all_bindings': lambda I, e, a, kw, env: list(order),
+             'add_assigned': lambda I, e, a, kw, env: None, 'reservation_scope': lambda I, e, a, kw, env: list(scopes[id(a[1])]),
+             '.should_rename': h_should, '.rename': h_rename, '.disallow_rename': h_pin,
+             'name_filter': lambda I, e, a, kw, env: iter(stream), 'find__all__': lambda I, e, a, kw, env: []}
+    I = Interp(model, MOD, hooks)
+    res = I.explore(lambda: I.call_function(MOD + '.rename', [module], {'prefix_globals': False, 'preserved_globals': list(preserved_globals)}))
+    if len(res) != 1 or res[0][0][0] != 'return':
+        raise AnalysisError('UNDECIDED: rename() on the reservation world -> %s' % [(r[0], r[2][:2]) for r in res][:3])
+    problems = []
+    final = {id(b): b.attrs['name'] for (_n, b) in order}
+    label = {id(pinned): 'the pinned binding', id(b1): 'first', id(kept): 'the binding that keeps its name', id(b2): 'second', id(b3): 'third', id(gb): 'the global binding'}
+    if final[id(kept)] != 'kept':
+        raise AnalysisError('reservation world: the binding that should keep its name was renamed to %r' % final[id(kept)])
+    for (_n, b) in order:
+        nm = final[id(b)]
+        if b is not pinned and nm == 'pinned_name':
+            problems.append('%s is given the name of a pinned binding that is visible in its scope (pinned names must be reserved before names are handed out)' % label[id(b)])
+        if nm in preserved_globals and module in scopes[id(b)]:
+            problems.append('%s is given the preserved global name %r' % (label[id(b)], nm))
+    for i_, (_n1, x) in enumerate(order):
+        for (_n2, y) in order[i_ + 1:]:
+            if final[id(x)] == final[id(y)] and set(map(id, scopes[id(x)])) & set(map(id, scopes[id(y)])):
+                problems.append('%s and %s both end up named %r although their scopes overlap' % (label[id(x)], label[id(y)], final[id(x)]))
+    for (_n, b) in order:
+        for n_ in scopes[id(b)]:
+            if final[id(b)] not in n_.attrs['assigned_names']:
+                problems.append('the final name %r of %s is not reserved in namespace %s of its scope' % (final[id(b)], label[id(b)], n_.attrs['name']))
+                break
+    if not any(id(b) in renamed for (_n, b) in order):
+        raise AnalysisError('reservation world: no binding was renamed - the enumeration does not reach the assignment loop')
+    return problems, {label[k]: v for k, v in final.items()}
